@@ -204,6 +204,7 @@ def oracle(case, io, mo):
     resolved_ids = set()
     regcount = {}
     all_ids = {}
+    ever_registered = False
     for i, op in enumerate(case[2]):
         if i >= len(obs):
             fails.append(("driver-died", "step %d" % i)); break
@@ -230,6 +231,7 @@ def oracle(case, io, mo):
         elif op[0] == "cmd":
             sid = int(op[1]); line = line_of(op); w = line.split(" ", 3)
             if w[0] == "arbiter" and reply == "Ok":
+                ever_registered = True
                 arbiters.add(sid)
                 regcount[sid] = regcount.get(sid, 0) + 1
                 # a (re)registering arbiter is sent exactly the unresolved conflicts (once per
@@ -273,6 +275,9 @@ def oracle(case, io, mo):
                         fails.append(("refused-but-changed", "step %d" % i))
                     if arbiters:
                         fails.append(("refused-with-arbiter", "step %d: arbiter %s registered" % (i, sorted(arbiters))))
+                    elif ever_registered:
+                        # "possible only while no arbiter has registered": once one has, a conflict is recorded for the next one
+                        fails.append(("refused-after-an-arbiter-registered", "step %d: '%s' was refused although an arbiter had registered before (it has left): the conflict must be recorded for the next arbiter%s" % (i, line, ", and conflicts %s are pending on the key" % pending[key] if pending.get(key) else "")))
                 elif reply == "Ok":
                     if pending.get(key):
                         fails.append(("applied-while-pending", "step %d: '%s' applied although conflicts %s are pending" % (i, line, pending[key])))
